@@ -391,6 +391,12 @@ impl<K, V> VfHashMapExt<K, V> for HashMap<K, V> {
 #[verifier::external_body]
 pub fn vf_elapsed_since(t: &Option<DateTime<Utc>>) -> (r: Option<Duration>) { unimplemented!() }
 pub uninterp spec fn spec_parent_path(id: Identifier) -> Identifier;
+// A-path: the parent path of the n-th child of p is p (ExtKeychainPath: drop the last level), for p of depth < 4
+#[verifier::external_body]
+pub proof fn axiom_parent_of_child(p: Identifier, n: u32)
+    requires spec_path_depth(p) < 4
+    ensures spec_parent_path(spec_child_id(p, n)) == p
+{ }
 impl Identifier {
     #[verifier::external_body]
     pub fn parent_path(&self) -> (r: Identifier) ensures r == spec_parent_path(*self) { unimplemented!() }
